@@ -147,7 +147,20 @@ check('C06', 'exploration',
       'TLA+ model of interface assembly (TLC, exhaustive) + trace validation of real schemas against its closed forms + XML Schema processor as judge of every emitted document',
       'DESIGN.md 4/C06')
 
-PENDING = ['C02', 'C03', 'C04', 'C07', 'C16', 'C17']
+check('exploration',
+      'SpyneDictDoc.tla states the conventions of JsonDocument / YamlDocument / MessagePackDocument / MessagePackRpc as an encoder from '
+      '(type, value, configuration) to an abstract document tree (maps as sets of pairs; wrappers, positional form, number / string / '
+      'bin kinds, the MessagePack integer range). SpyneDictCases.DictCases (the SpyneSignatures templates plus 64-bit boundary integers, '
+      'large decimals, a pool of Unicode scalar texts incl. 12 KB bodies that straddle the 8 KiB transport block, empty containers, and '
+      'response values in which one instance is reachable twice) x {4 families} x {ignore_wrappers} x {complex_as dict / list} x '
+      '{polymorphic} x {validator None / soft} x {arguments by name / positional} x {MessagePack method key bin / str}: every exchange '
+      'is real (request written by an encoder of the conventions and the standard codecs, through WsgiApplication) and TLC (TraceDict) '
+      'checks ReqIsSpec, Delivered (called once with equal values), RespIsSpec and Decodes (an independent reader of the conventions '
+      'recovers the value returned).',
+      'TLA+ document-convention model evaluated by TLC on every real exchange (trace validation, closed case family)',
+      'DESIGN.md 4/C02')
+
+PENDING = ['C03', 'C04', 'C07', 'C16', 'C17']
 
 def main():
     import importlib
